@@ -1,12 +1,14 @@
 /-
   Driver family `aof` (C11): the live connection, the log it leaves, and the replay of that log.
 
-  cfg <names A|B|…> <logSelect 0|1> <logWake 0|1> <byEffect 0|1>   → ok   (table and switches come from the translator via the check)
+  cfg <names A|B|…> <logSelect 0|1> <logWake 0|1> <byEffect 0|1> <logExpiry 0|1>   → ok   (table and switches come from the translator via the check)
   reset                                             → ok          (empty server, empty log, db 0)
   restart                                           → ok          (server restarted on the same file with its dataset: new connection in db 0, `last_db` unknown)
   ev cmd <viaExec 0|1> <now> <obs> <arg-hex>…        → <entries appended> # <db selected afterwards> # <covered 0|1> # <inModel 0|1>
                                                        (obs: what a SPOP/SRANDMEMBER/RANDOMKEY drew, the id an `XADD *` was assigned; `_` none)
   ev wake <db> <now> <L|R> <key-hex>                 → same
+  ev expire <db> <now> <key-hex>                     → same, or `not-expired` if the model's key is not there with a passed deadline
+  droplast                                          → ok          (a torn last entry was cut off)
   log                                               → the entries: commands separated by ` ; `, arguments by `|`  (`.` = no entry)
   file                                              → hex of the bytes of the file (`-` = empty)
   read <file-hex>                                   → <commands as in `log`> # clean | torn <hex> | corrupt <hex>     (the model's strict reader)
@@ -53,10 +55,10 @@ def showEvs (evs : List Ferrous.Ev) : String :=
 
 def step (st : St) (ws : List String) : St × String :=
   match ws with
-  | ["cfg", names, ls, lw, le] =>
-    if (ls != "0" && ls != "1") || (lw != "0" && lw != "1") || (le != "0" && le != "1") then (st, "bad-op") else
+  | ["cfg", names, ls, lw, le, lx] =>
+    if (ls != "0" && ls != "1") || (lw != "0" && lw != "1") || (le != "0" && le != "1") || (lx != "0" && lx != "1") then (st, "bad-op") else
     let w := if names == "." then [] else names.splitOn "|"
-    ({ st with cfg := { writes := w, logSelect := ls == "1", logWake := lw == "1", byEffect := le == "1" } }, "ok")
+    ({ st with cfg := { writes := w, logSelect := ls == "1", logWake := lw == "1", byEffect := le == "1", logExpiry := lx == "1" } }, "ok")
   | ["reset"] => ({ st with live := {}, lst := {}, entries := [] }, "ok")
   | ["restart"] => ({ st with live := st.live.restarted, lst := LogSt.restarted }, "ok")
   | "ev" :: "cmd" :: ve :: now :: obs :: args =>
@@ -71,6 +73,21 @@ def step (st : St) (ws : List String) : St × String :=
       if (side != "L" && side != "R") || db ≥ 16 then (st, "bad-op") else
       evAnswer st (.wake db now (side == "L") key)
     | _, _, _ => (st, "bad-op")
+  | ["ev", "expire", db, now, key] =>
+    match db.toNat?, now.toNat?, ofHex key with
+    | some db, some now, some key =>
+      if db ≥ 16 then (st, "bad-op") else
+      -- inadmissible if the model's key is alive (the harness mis-observed an expiry).  The key may be gone already: an
+      -- earlier command on that database dropped every dead entry of the model (`purge`), while the server keeps a dead
+      -- key, invisible, until something looks at it — the removal is logged then all the same
+      let aliveNow := match lookup (getDb st.live.store db) key with
+        | some e => alive now e
+        | none => false
+      if aliveNow then (st, "not-expired") else evAnswer st (.expire db now key)
+    | _, _, _ => (st, "bad-op")
+  | ["droplast"] =>
+    -- the last entry of the file was torn by a crash and cut off at the restart
+    ({ st with entries := st.entries.dropLast }, "ok")
   | ["log"] => (st, showCmds st.entries)
   | ["file"] => (st, toHex (fileOf st.entries))
   | ["read", h] =>
